@@ -66,7 +66,11 @@ def _pow_antider(x, c, al):
 
 
 FAMILIES = ["poly", "exp", "sin", "cos", "lorentz", "gauss", "sqrt_end", "power", "kink", "jump",
-            "inv_sqrt", "nan_node", "inf_node", "divergent"]
+            "inv_sqrt", "nan_node", "inf_node",
+            # integrands that are EXACTLY 0.0 on a stretch of the range (an all-zero interval makes
+            # c_diff == hint * norm(c) == 0, the boundary case of the "refinement did not help" test)
+            "zgauss", "step0", "ramp", "bump",
+            "divergent"]
 # families the accuracy clause quantifies over (divergent only shows the exception is reachable)
 CONVERGENT = [f for f in FAMILIES if f != "divergent"]
 
@@ -101,6 +105,18 @@ def draw(family: str, rng, dyadic: bool = False) -> dict:
         p["s"] = w * 10.0 ** rng.uniform(-1.7, 0.3)
     elif family == "sqrt_end":
         pass
+    elif family == "zgauss":           # exp(-((x-x0)/s)^2), so narrow that the tails underflow to 0.0 (beyond ~27.3 s)
+        p["s"] = w / rng.uniform(35, 60)
+        p["x0"] = a + w * rng.choice([rng.uniform(0.03, 0.2), rng.uniform(0.8, 0.97), 0.2, 0.1])
+    elif family == "step0":            # 0 left of c, h right of it
+        p["c"] = a + w * rng.choice([rng.random(), 0.41, 0.5, 0.25, 0.7])
+        p["h"] = rng.choice([1.0, 1.0, rng.uniform(0.5, 3)])
+    elif family == "ramp":             # max(0, k (x - x0))
+        p["x0"] = a + w * rng.choice([rng.uniform(0.05, 0.95), 0.37, 0.5, 0.75])
+        p["k"] = rng.choice([1.0, 1.0, rng.uniform(0.2, 5)])
+    elif family == "bump":             # (1 - u^2)^2 for |u| < 1, u = (x - x0)/s, exactly 0 outside
+        p["s"] = w * rng.uniform(0.08, 0.35)
+        p["x0"] = a + w * rng.choice([rng.uniform(0.1, 0.9), 0.2, 0.5, 0.0, 1.0])
     elif family == "power":
         p["c"] = a + w * rng.choice([rng.random(), 0.5, 0.0, 1.0, 0.25, 0.45])
         p["al"] = rng.choice([0.5, 1.5, 0.987654321, rng.uniform(0.1, 2.5), rng.uniform(-0.45, -0.05)])
@@ -156,6 +172,28 @@ def build(family: str, p: dict) -> Member:
         return Member(family, p, lambda x: math.exp(-((x - x0) ** 2) / (2 * s * s)), ex, a, b)
     if family == "sqrt_end":
         return Member(family, p, lambda x: math.sqrt(abs(x - a)), 2.0 / 3.0 * (b - a) ** 1.5, a, b)
+    if family == "zgauss":
+        x0, sg = float(p["x0"]), float(p["s"])
+        ex = sg * math.sqrt(math.pi) / 2 * _erf_diff((a - x0) / sg, (b - x0) / sg)
+        return Member(family, p, lambda x: math.exp(-(((x - x0) / sg) ** 2)), ex, a, b)
+    if family == "step0":
+        c, h = float(p["c"]), float(p["h"])
+        return Member(family, p, lambda x: 0.0 if x < c else h, h * (b - c), a, b)
+    if family == "ramp":
+        x0, k = float(p["x0"]), float(p["k"])
+        return Member(family, p, lambda x: max(0.0, k * (x - x0)), k * (b - x0) ** 2 / 2 - (k * (a - x0) ** 2 / 2 if a > x0 else 0.0),
+                      a, b)
+    if family == "bump":
+        x0, sg = float(p["x0"]), float(p["s"])
+
+        def f(x):
+            u = (x - x0) / sg
+            return (1.0 - u * u) ** 2 if -1.0 < u < 1.0 else 0.0
+
+        def F(u):
+            u = min(1.0, max(-1.0, u))
+            return u - 2.0 * u ** 3 / 3.0 + u ** 5 / 5.0
+        return Member(family, p, f, sg * (F((b - x0) / sg) - F((a - x0) / sg)), a, b)
     if family == "power":
         c, al = float(p["c"]), float(p["al"])
 
